@@ -1495,6 +1495,302 @@ fn run_gpos_case(case: &GposCase, rng: &mut Rng, st: &mut Stats, cw: &mut CaseWr
     st.sample(json!({"kind":"gpos","key":case.key,"bytes":bytes.len()}));
 }
 
+// ------------------------------------------------------------------------------------------------
+// lookups of DIFFERENT types sharing byte-identical (deduplicated) subtables, large enough to be promoted:
+// after resolving extensions every subtable must carry its own lookup's type, flags / mark filtering set
+// must be preserved and the subtable content must equal the input.  Oracle keys: "shared-<family>-<name>:l<i>:ext-type"
+// (also ":flags", ":count", ":content", ":reader-panic", ":pack-failed").
+
+type SeqContent = (Vec<u16>, Vec<Vec<u16>>);
+fn seq_content(start: u16, n: u16) -> SeqContent {
+    ((start..start + n).collect(), (start..start + n).map(|g| (g..g + 4).collect()).collect())
+}
+fn shared_gsub_case(name: &str, n: u16, lookups: &[(u16, u16, Option<u16>, Vec<u16>)], st: &mut Stats) {
+    use read_fonts::tables::gsub as rgsub;
+    use write_fonts::tables::gsub as wgsub;
+    let key = format!("shared-gsub-{}", name);
+    let specs = lookups.to_vec();
+    let built = catch(move || {
+        let ls: Vec<wgsub::SubstitutionLookup> = specs
+            .iter()
+            .map(|(ty, flags, mfs, starts)| {
+                let fl = wlayout::LookupFlag::from_bits_truncate(*flags);
+                let cov = |s: u16| -> wlayout::CoverageTable { (s..s + n).map(gid).collect() };
+                if *ty == 2 {
+                    let subs = starts
+                        .iter()
+                        .map(|s| wgsub::MultipleSubstFormat1::new(cov(*s), (*s..*s + n).map(|g| wgsub::Sequence::new((g..g + 4).map(gid).collect())).collect()))
+                        .collect();
+                    let mut l = wlayout::Lookup::new(fl, subs);
+                    l.mark_filtering_set = *mfs;
+                    wgsub::SubstitutionLookup::Multiple(l)
+                } else {
+                    let subs = starts
+                        .iter()
+                        .map(|s| wgsub::AlternateSubstFormat1::new(cov(*s), (*s..*s + n).map(|g| wgsub::AlternateSet::new((g..g + 4).map(gid).collect())).collect()))
+                        .collect();
+                    let mut l = wlayout::Lookup::new(fl, subs);
+                    l.mark_filtering_set = *mfs;
+                    wgsub::SubstitutionLookup::Alternate(l)
+                }
+            })
+            .collect();
+        let gsub = wgsub::Gsub::new(Default::default(), Default::default(), wlayout::LookupList::new(ls));
+        write_fonts::dump_table(&gsub).map_err(|e| format!("{:?}", e).chars().take(200).collect::<String>())
+    });
+    st.evaluations += 1;
+    st.count("shared_gsub_tables");
+    let bytes = match built {
+        Ok(Ok(b)) => b,
+        other => {
+            st.oracle_failure(json!({"key": format!("{}:pack-failed", key), "what": "dump_table failed or panicked", "err": format!("{:?}", other.err())}));
+            return;
+        }
+    };
+    let specs = lookups.to_vec();
+    let mut lst = Stats::new();
+    let res = catch(std::panic::AssertUnwindSafe(|| {
+        let gsub = rgsub::Gsub::read(FontData::new(&bytes)).unwrap();
+        let ll = gsub.lookup_list().unwrap();
+        if ll.lookup_count() as usize != specs.len() {
+            lst.oracle_failure(json!({"key": format!("{}:count", key), "what": "lookup count changed"}));
+            return;
+        }
+        for (li, (ty, flags, mfs, starts)) in specs.iter().enumerate() {
+            let l = ll.lookups().get(li).unwrap();
+            // (effective type, content) per subtable, extensions resolved one by one
+            let mut subs: Vec<(u16, SeqContent)> = vec![];
+            let dm = |t: &rgsub::MultipleSubstFormat1| -> SeqContent {
+                (t.coverage().unwrap().iter().map(|g| g.to_u16()).collect(),
+                 t.sequences().iter().map(|s| s.unwrap().substitute_glyph_ids().iter().map(|g| g.get().to_u16()).collect()).collect())
+            };
+            let da = |t: &rgsub::AlternateSubstFormat1| -> SeqContent {
+                (t.coverage().unwrap().iter().map(|g| g.to_u16()).collect(),
+                 t.alternate_sets().iter().map(|s| s.unwrap().alternate_glyph_ids().iter().map(|g| g.get().to_u16()).collect()).collect())
+            };
+            let promoted = matches!(l, rgsub::SubstitutionLookup::Extension(_));
+            match &l {
+                rgsub::SubstitutionLookup::Multiple(l) => for s in l.subtables().iter() { subs.push((2, dm(&s.unwrap()))) },
+                rgsub::SubstitutionLookup::Alternate(l) => for s in l.subtables().iter() { subs.push((3, da(&s.unwrap()))) },
+                rgsub::SubstitutionLookup::Extension(l) => for s in l.subtables().iter() {
+                    match s.unwrap() {
+                        rgsub::ExtensionSubtable::Multiple(e) => subs.push((e.extension_lookup_type(), dm(&e.extension().unwrap()))),
+                        rgsub::ExtensionSubtable::Alternate(e) => subs.push((e.extension_lookup_type(), da(&e.extension().unwrap()))),
+                        _ => subs.push((0xffff, (vec![], vec![]))),
+                    }
+                },
+                _ => subs.push((0xfffe, (vec![], vec![]))),
+            }
+            lst.count(if promoted { "shared_lookups_promoted" } else { "shared_lookups_not_promoted" });
+            if (promoted && l.lookup_type() != 7) || (!promoted && l.lookup_type() != *ty) || subs.iter().any(|s| s.0 != *ty) {
+                lst.oracle_failure(json!({"key": format!("{}:l{}:ext-type", key, li), "what": "effective lookup type of a subtable differs from the input lookup's type",
+                    "input_type": ty, "lookup_type_out": l.lookup_type(), "effective_types": subs.iter().map(|s| s.0).collect::<Vec<_>>()}));
+            }
+            if l.lookup_flag().to_bits() != *flags || l.mark_filtering_set() != *mfs {
+                lst.oracle_failure(json!({"key": format!("{}:l{}:flags", key, li), "what": "lookup flags or mark filtering set changed"}));
+            }
+            if subs.len() != starts.len() {
+                lst.oracle_failure(json!({"key": format!("{}:l{}:count", key, li), "what": "subtable count changed"}));
+            } else {
+                for (si, s) in starts.iter().enumerate() {
+                    lst.evaluations += n as u64;
+                    if subs[si].1 != seq_content(*s, n) {
+                        lst.oracle_failure(json!({"key": format!("{}:l{}:content", key, li), "what": "subtable content differs from the input", "subtable": si}));
+                    }
+                }
+            }
+        }
+    }));
+    if let Err(e) = res {
+        lst.oracle_failure(json!({"key": format!("{}:reader-panic", key), "what": "reading the compiled table panicked", "err": e.chars().take(200).collect::<String>()}));
+    }
+    st.evaluations += lst.evaluations;
+    for (k, v) in lst.counters {
+        if k != "oracle_failures" {
+            st.add(&k, v);
+        }
+    }
+    for f in lst.oracle_failures {
+        st.oracle_failure(f);
+    }
+    st.nontrivial(&key);
+}
+
+/// GPOS: MarkBasePosFormat1 and MarkMarkPosFormat1 have the same binary layout
+type MarkContent = (Vec<u16>, Vec<u16>, u16, Vec<(u16, Anc)>, Vec<Vec<Option<Anc>>>);
+fn mark_content(start: u16, ncls: u16, nb: u16) -> MarkContent {
+    let a = |x: i64| Anc { x: (x % 30000) as i16, y: (start % 1000) as i16, pt: None, xd: Dev::None, yd: Dev::None };
+    (
+        (start..start + ncls).collect(),
+        (start + 100..start + 100 + nb).collect(),
+        ncls,
+        (0..ncls).map(|c| (c, a(c as i64))).collect(),
+        (0..nb).map(|b| (0..ncls).map(|c| Some(a(100 + b as i64 * ncls as i64 + c as i64))).collect()).collect(),
+    )
+}
+fn shared_gpos_case(name: &str, ncls: u16, nb: u16, lookups: &[(u16, u16, Option<u16>, Vec<u16>)], st: &mut Stats) {
+    let key = format!("shared-gpos-{}", name);
+    let specs = lookups.to_vec();
+    let wa = |a: &Anc| wgpos::AnchorTable::format_1(a.x, a.y);
+    let built = catch(move || {
+        let ls: Vec<wgpos::PositionLookup> = specs
+            .iter()
+            .map(|(ty, flags, mfs, starts)| {
+                let fl = wlayout::LookupFlag::from_bits_truncate(*flags);
+                if *ty == 4 {
+                    let subs = starts
+                        .iter()
+                        .map(|s| {
+                            let c = mark_content(*s, ncls, nb);
+                            wgpos::MarkBasePosFormat1::new(
+                                c.0.iter().map(|g| gid(*g)).collect(),
+                                c.1.iter().map(|g| gid(*g)).collect(),
+                                wgpos::MarkArray::new(c.3.iter().map(|(k, a)| wgpos::MarkRecord::new(*k, wa(a))).collect()),
+                                wgpos::BaseArray::new(c.4.iter().map(|r| wgpos::BaseRecord::new(r.iter().map(|a| a.as_ref().map(wa)).collect())).collect()),
+                            )
+                        })
+                        .collect();
+                    let mut l = wlayout::Lookup::new(fl, subs);
+                    l.mark_filtering_set = *mfs;
+                    wgpos::PositionLookup::MarkToBase(l)
+                } else {
+                    let subs = starts
+                        .iter()
+                        .map(|s| {
+                            let c = mark_content(*s, ncls, nb);
+                            wgpos::MarkMarkPosFormat1::new(
+                                c.0.iter().map(|g| gid(*g)).collect(),
+                                c.1.iter().map(|g| gid(*g)).collect(),
+                                wgpos::MarkArray::new(c.3.iter().map(|(k, a)| wgpos::MarkRecord::new(*k, wa(a))).collect()),
+                                wgpos::Mark2Array::new(c.4.iter().map(|r| wgpos::Mark2Record::new(r.iter().map(|a| a.as_ref().map(wa)).collect())).collect()),
+                            )
+                        })
+                        .collect();
+                    let mut l = wlayout::Lookup::new(fl, subs);
+                    l.mark_filtering_set = *mfs;
+                    wgpos::PositionLookup::MarkToMark(l)
+                }
+            })
+            .collect();
+        let gpos = wgpos::Gpos::new(Default::default(), Default::default(), wlayout::LookupList::new(ls));
+        write_fonts::dump_table(&gpos).map_err(|e| format!("{:?}", e).chars().take(200).collect::<String>())
+    });
+    st.evaluations += 1;
+    st.count("shared_gpos_tables");
+    let bytes = match built {
+        Ok(Ok(b)) => b,
+        other => {
+            st.oracle_failure(json!({"key": format!("{}:pack-failed", key), "what": "dump_table failed or panicked", "err": format!("{:?}", other.err())}));
+            return;
+        }
+    };
+    let specs = lookups.to_vec();
+    let mut lst = Stats::new();
+    let res = catch(std::panic::AssertUnwindSafe(|| {
+        let gpos = rgpos::Gpos::read(FontData::new(&bytes)).unwrap();
+        let ll = gpos.lookup_list().unwrap();
+        if ll.lookup_count() as usize != specs.len() {
+            lst.oracle_failure(json!({"key": format!("{}:count", key), "what": "lookup count changed"}));
+            return;
+        }
+        let covv = |c: rlayout::CoverageTable| -> Vec<u16> { c.iter().map(|g| g.to_u16()).collect() };
+        let marks = |ma: rgpos::MarkArray| -> Vec<(u16, Anc)> {
+            let d = ma.offset_data();
+            ma.mark_records().iter().map(|r| (r.mark_class(), anc_of_r(&r.mark_anchor(d).unwrap()))).collect()
+        };
+        let db = |t: &rgpos::MarkBasePosFormat1| -> MarkContent {
+            let ba = t.base_array().unwrap();
+            let d = ba.offset_data();
+            let rows = ba.base_records().iter().map(|r| r.unwrap().base_anchors(d).iter().map(|a| a.map(|a| anc_of_r(&a.unwrap()))).collect()).collect();
+            (covv(t.mark_coverage().unwrap()), covv(t.base_coverage().unwrap()), t.mark_class_count(), marks(t.mark_array().unwrap()), rows)
+        };
+        let dmm = |t: &rgpos::MarkMarkPosFormat1| -> MarkContent {
+            let ba = t.mark2_array().unwrap();
+            let d = ba.offset_data();
+            let rows = ba.mark2_records().iter().map(|r| r.unwrap().mark2_anchors(d).iter().map(|a| a.map(|a| anc_of_r(&a.unwrap()))).collect()).collect();
+            (covv(t.mark1_coverage().unwrap()), covv(t.mark2_coverage().unwrap()), t.mark_class_count(), marks(t.mark1_array().unwrap()), rows)
+        };
+        for (li, (ty, flags, mfs, starts)) in specs.iter().enumerate() {
+            let l = ll.lookups().get(li).unwrap();
+            let mut subs: Vec<(u16, MarkContent)> = vec![];
+            let promoted = matches!(l, rgpos::PositionLookup::Extension(_));
+            match &l {
+                rgpos::PositionLookup::MarkToBase(l) => for s in l.subtables().iter() { subs.push((4, db(&s.unwrap()))) },
+                rgpos::PositionLookup::MarkToMark(l) => for s in l.subtables().iter() { subs.push((6, dmm(&s.unwrap()))) },
+                rgpos::PositionLookup::Extension(l) => for s in l.subtables().iter() {
+                    match s.unwrap() {
+                        rgpos::ExtensionSubtable::MarkToBase(e) => subs.push((e.extension_lookup_type(), db(&e.extension().unwrap()))),
+                        rgpos::ExtensionSubtable::MarkToMark(e) => subs.push((e.extension_lookup_type(), dmm(&e.extension().unwrap()))),
+                        _ => subs.push((0xffff, (vec![], vec![], 0, vec![], vec![]))),
+                    }
+                },
+                _ => subs.push((0xfffe, (vec![], vec![], 0, vec![], vec![]))),
+            }
+            lst.count(if promoted { "shared_lookups_promoted" } else { "shared_lookups_not_promoted" });
+            if (promoted && l.lookup_type() != 9) || (!promoted && l.lookup_type() != *ty) || subs.iter().any(|s| s.0 != *ty) {
+                lst.oracle_failure(json!({"key": format!("{}:l{}:ext-type", key, li), "what": "effective lookup type of a subtable differs from the input lookup's type",
+                    "input_type": ty, "lookup_type_out": l.lookup_type(), "effective_types": subs.iter().map(|s| s.0).collect::<Vec<_>>()}));
+            }
+            if l.lookup_flag().to_bits() != *flags || l.mark_filtering_set() != *mfs {
+                lst.oracle_failure(json!({"key": format!("{}:l{}:flags", key, li), "what": "lookup flags or mark filtering set changed"}));
+            }
+            // MarkToBase lookups may additionally be split; this family keeps every subtable below 64 KiB
+            if subs.len() != starts.len() {
+                lst.oracle_failure(json!({"key": format!("{}:l{}:count", key, li), "what": "subtable count changed"}));
+            } else {
+                for (si, s) in starts.iter().enumerate() {
+                    lst.evaluations += (ncls as u64) * (nb as u64);
+                    if subs[si].1 != mark_content(*s, ncls, nb) {
+                        lst.oracle_failure(json!({"key": format!("{}:l{}:content", key, li), "what": "subtable content differs from the input", "subtable": si}));
+                    }
+                }
+            }
+        }
+    }));
+    if let Err(e) = res {
+        lst.oracle_failure(json!({"key": format!("{}:reader-panic", key), "what": "reading the compiled table panicked", "err": e.chars().take(200).collect::<String>()}));
+    }
+    st.evaluations += lst.evaluations;
+    for (k, v) in lst.counters {
+        if k != "oracle_failures" {
+            st.add(&k, v);
+        }
+    }
+    for f in lst.oracle_failures {
+        st.oracle_failure(f);
+    }
+    st.nontrivial(&key);
+}
+
+fn shared_subtable_family(rng: &mut Rng, st: &mut Stats, thorough: bool) {
+    const M: u16 = 2; // MultipleSubst
+    const A: u16 = 3; // AlternateSubst
+    let n = 3400u16; // ~41 KiB per subtable
+    shared_gsub_case("mult-alt", n, &[(M, 0, None, vec![10, 10_000, 20_000]), (A, 0, None, vec![10, 10_000, 20_000])], st);
+    shared_gsub_case("alt-mult", n, &[(A, 0, None, vec![10, 10_000, 20_000]), (M, 1, None, vec![10, 10_000, 20_000])], st);
+    shared_gsub_case("three-lookups-mfs", n, &[(M, 0x10, Some(3), vec![10, 10_000]), (A, 0x18, Some(1), vec![10_000, 10, 30_000]), (M, 0, None, vec![30_000, 10])], st);
+    shared_gsub_case("partial", n, &[(M, 0, None, vec![10, 10_000, 20_000]), (A, 8, None, vec![10_000, 30_000, 20_000])], st);
+    shared_gsub_case("small-no-promotion", 50, &[(M, 0, None, vec![10, 500]), (A, 0, None, vec![10, 500])], st);
+    shared_gsub_case("same-subtable-twice", n, &[(M, 0, None, vec![10, 10, 10_000]), (A, 0, None, vec![10_000, 10, 10])], st);
+    // GPOS: 8 classes x 600 bases x (2 + 6) bytes ~ 38 KiB per subtable
+    shared_gpos_case("base-mark", 8, 600, &[(4, 0, None, vec![100, 5_000, 10_000]), (6, 0, None, vec![100, 5_000, 10_000])], st);
+    shared_gpos_case("mark-base-mfs", 8, 600, &[(6, 0x10, Some(2), vec![100, 5_000, 10_000]), (4, 0x10, Some(5), vec![5_000, 100, 20_000])], st);
+    shared_gpos_case("small-no-promotion", 3, 20, &[(4, 0, None, vec![100, 400]), (6, 0, None, vec![100, 400])], st);
+    let extra = if thorough { 12 } else { 2 };
+    for i in 0..extra {
+        let k = 2 + rng.below(3) as usize;
+        let pool: Vec<u16> = (0..4).map(|j| 10 + j * 8_000).collect();
+        let ls: Vec<(u16, u16, Option<u16>, Vec<u16>)> = (0..k)
+            .map(|j| {
+                let (fl, mfs) = gen_flags(rng);
+                let cnt = 1 + rng.below(3) as usize;
+                (if (j + i) % 2 == 0 { M } else { A }, fl, mfs, (0..cnt).map(|_| *rng.pick(&pool)).collect())
+            })
+            .collect();
+        shared_gsub_case(&format!("rand-{}", i), n, &ls, st);
+    }
+}
+
 fn main() {
     silence_panics();
     let args: Vec<String> = std::env::args().collect();
@@ -1613,6 +1909,8 @@ fn main() {
     for c in &cases {
         run_gpos_case(c, &mut rng, &mut st, &mut cw, thorough);
     }
+
+    shared_subtable_family(&mut rng, &mut st, thorough);
 
     let shards = cw.finish();
     st.v.insert("shards".into(), shards.into());
